@@ -824,6 +824,8 @@ static bool run_case_inner(std::string const& op_in, Toks& in, Out& impl, Out& r
 // The move constructor / move assignment take the value over and MARK THE SOURCE (value MOVED), with no self test - like
 // a handle or buffer owner.  A move-assignment of an element onto itself therefore destroys it, and every move the
 // algorithm makes is visible afterwards: the legs show the element sequence with the moved-from marks.
+// Tokens of the impl leg: SELF-MOVE k (k move assignments of a live element onto itself), COPIED k (k element copies: the
+// in-place algorithms may only move / swap), A k (number of move assignments, where the moves are modelled one by one).
 static constexpr int MOVED = -999;
 static long g_massign  = 0;
 static long g_selfmove = 0;
